@@ -747,6 +747,19 @@ var natives = map[string]extFn{
 		}
 		return tuple{v, iface{}}
 	},
+	// regexp.Match(pattern, b): concrete pattern; the subject is concretised (forks over its feasible bytes)
+	"regexp.Match": func(e *Engine, _ *frame, _ *ssa.Function, a []value) value {
+		pat := e.needStr(a[0], "regexp.Match")
+		re, err := regexp.Compile(pat)
+		if err != nil {
+			return tuple{false, mkError("error parsing regexp: " + err.Error())}
+		}
+		return tuple{re.Match(e.concBytes(a[1].([]value))), iface{}}
+	},
+	// the account database is not part of the model: no user
+	"os/user.Current": func(e *Engine, _ *frame, fn *ssa.Function, a []value) value {
+		return tuple{(*value)(nil), mkError("user: Current not implemented in the model")}
+	},
 	"regexp.MustCompile": func(e *Engine, _ *frame, _ *ssa.Function, a []value) value {
 		s := e.needStr(a[0], "regexp.MustCompile")
 		re, err := regexp.Compile(s)
